@@ -1,4 +1,5 @@
 """C17 — parameter transforms are invertible and compose in order."""
+import math
 import sys
 
 import common
@@ -195,6 +196,16 @@ def run(ctx):
             cmds.append(dict(cmd="c17.chain", members=mdesc, xs=[fbits(v) for v in lx]))
             metas.append(("chain", dict(apply=lcy, back=cb), cdesc))
 
+            # ---- Exponential alone on a wide part of its domain (logs of small and large physical constants)
+            wide = _map(lambda x: (onp.asarray(x, dtype=onp.float32) * 0 + onp.asarray(rng.uniform(-16, 10), dtype=onp.float32)).astype(onp.float32), tree)
+            Ex = base.Exponential.init()
+            wb = L(Ex.inv(Ex.apply(wide)))
+            lw = L(wide)
+            for i in range(len(lw)):
+                if not close(wb[i], lw[i], 0.0, 1e-5 * max(1.0, abs(lw[i]))):
+                    res.fail("exp_inv", f"Exponential.inv(apply(x)) != x: x={lw[i]} got {wb[i]} (exp(x)={math.exp(lw[i])})", dict(kind="exp_inv", x=lw[i]))
+                    break
+            res.count("exp_wide")
             # ---- Extend: partial tree = tree with some leaves replaced by None
             # base leaves may be integer-typed (python ints / int arrays) while the user supplies fractional values
             basep = _map(lambda x: (onp.asarray(onp.round(onp.asarray(x)), dtype=onp.int32) if rng.random() < 0.3 else onp.asarray(x, dtype=onp.float32)), tree)
